@@ -12,6 +12,8 @@ import (
 	"io/fs"
 	"os"
 	"runtime"
+
+	"github.com/rogpeppe/go-internal/internal/verifhook"
 )
 
 // A File is a locked *os.File.
@@ -102,6 +104,7 @@ func Read(name string) ([]byte, error) {
 		return nil, err
 	}
 	defer f.Close()
+	verifhook.At("lockedfile.read.afterOpen")
 
 	return io.ReadAll(f)
 }
@@ -114,6 +117,7 @@ func Write(name string, content io.Reader, perm fs.FileMode) (err error) {
 		return err
 	}
 
+	verifhook.At("lockedfile.write.afterOpen")
 	_, err = io.Copy(f, content)
 	if closeErr := f.Close(); err == nil {
 		err = closeErr
@@ -140,6 +144,7 @@ func Transform(name string, t func([]byte) ([]byte, error)) (err error) {
 		return err
 	}
 
+	verifhook.At("lockedfile.transform.afterRead")
 	new, err := t(old)
 	if err != nil {
 		return err
@@ -156,6 +161,7 @@ func Transform(name string, t func([]byte) ([]byte, error)) (err error) {
 		}
 	}
 
+	verifhook.At("lockedfile.transform.afterTail")
 	// We're about to overwrite the old contents. In case of failure, make a best
 	// effort to roll back before we close the file.
 	defer func() {
@@ -174,6 +180,7 @@ func Transform(name string, t func([]byte) ([]byte, error)) (err error) {
 		if _, err := f.WriteAt(new, 0); err != nil {
 			return err
 		}
+		verifhook.At("lockedfile.transform.afterHead")
 		// The overall file size is decreasing, so shrink the file to its final size
 		// after writing. We do this after writing (instead of before) so that if
 		// the write fails, enough filesystem space will likely still be reserved
